@@ -109,6 +109,14 @@ def stress_folded_constants(ctx, x):
     return x * h + h * (x * x) + k * x + k
 
 
+def stress_user_name_equals_auto_name(ctx, x, y):
+    # a user variable whose name equals the name the package generates for another, anonymous expression
+    # that also needs a variable (abs(x) -> "abs_x")
+    abs_x = ctx.maximum(abs(x), y)
+    r = abs(x) * abs_x + abs(x)
+    return ctx(r)
+
+
 def stress_shadow(ctx, x):
     # local names chosen to collide with names that library algorithms use internally
     one = ctx.constant(1, x)
@@ -136,6 +144,7 @@ STRESS = {
     "stress_complex_parts": (stress_complex_parts, 1, "complex"),
     "stress_dunder_names": (stress_dunder_names, 1, "complex"),
     "stress_folded_constants": (stress_folded_constants, 1, "float"),
+    "stress_user_name_equals_auto_name": (stress_user_name_equals_auto_name, 2, "float"),
 }
 STRESS_SIGS = {
     "python": {"float": [":float"], "complex": [":complex"]},
